@@ -17,6 +17,7 @@ import (
 
 	"verifharness/internal/evid"
 	"verifharness/internal/gen"
+	"verifharness/internal/ingestx"
 	"verifharness/internal/model"
 	"verifharness/internal/stores"
 	"verifharness/internal/tblcheck"
@@ -383,4 +384,87 @@ func runNeg(c NegCase) (o evid.Outcome, err error) {
 		return o, fmt.Errorf("%s: Receive returned %q but the rejected object is stored (%s...)", c.Kind, rerr, key[:4])
 	}
 	return o, nil
+}
+
+// ---- wide rows: blocks whose decoded size is far above what any pool table has ---------------
+
+// WideCase: one commit whose table has Rows rows of Cols cells of CellLen bytes each.
+type WideCase struct {
+	Rows    int    `json:"rows"`
+	Cols    int    `json:"cols"`
+	CellLen int    `json:"cell_len"`
+	MaxSize uint64 `json:"max_size"`
+}
+
+var subWide = evid.Register("wide", runWide)
+
+func TestPropWideBlocks(t *testing.T) {
+	rapid.Check(t, func(t *rapid.T) {
+		subWide.Check(t, WideCase{
+			Rows:    rapid.SampledFrom([]int{1, 100, 255, 256}).Draw(t, "rows"),
+			Cols:    rapid.IntRange(1, 4).Draw(t, "cols"),
+			CellLen: rapid.SampledFrom([]int{1000, 23000, 40000, 65535}).Draw(t, "celllen"),
+			MaxSize: rapid.SampledFrom([]uint64{0, 1, 1 << 20}).Draw(t, "maxsize"),
+		})
+	})
+}
+
+func runWide(c WideCase) (o evid.Outcome, err error) {
+	src, dst := stores.NewMem(), stores.NewMem()
+	tb := gen.Table{Cols: []string{"id"}, PK: []int{0}}
+	for j := 0; j < c.Cols; j++ {
+		tb.Cols = append(tb.Cols, fmt.Sprintf("c%d", j))
+	}
+	for i := 0; i < c.Rows; i++ {
+		row := []gen.Cell{gen.Cell(fmt.Sprintf("k%05d", i))}
+		for j := 0; j < c.Cols; j++ {
+			// cheap to build, not constant: a short varying head and a long run
+			cell := append([]byte(fmt.Sprintf("%d/%d:", i, j)), bytes.Repeat([]byte{byte('a' + (i+j)%26)}, c.CellLen)...)
+			row = append(row, gen.Cell(cell[:c.CellLen]))
+		}
+		tb.Rows = append(tb.Rows, row)
+	}
+	ts, err := ingestx.Simple(src, tb)
+	if err != nil {
+		return o, fmt.Errorf("HARNESS: ingest of a table with %d rows of %d cells of %d bytes: %v", c.Rows, c.Cols, c.CellLen, err)
+	}
+	d := gen.DAG{Nodes: []gen.Node{{Parents: []int{}, Time: 1600000000, Table: 0}}}
+	sums, err := stores.BuildHistory(src, d, [][]byte{ts})
+	if err != nil {
+		return o, fmt.Errorf("HARNESS: %v", err)
+	}
+	com, err := objects.GetCommit(src, sums[0])
+	if err != nil {
+		return o, fmt.Errorf("HARNESS: %v", err)
+	}
+	what := fmt.Sprintf("a table of %d rows x %d cells of %d bytes (blocks of up to %d MB)", c.Rows, c.Cols, c.CellLen, c.Rows*c.Cols*c.CellLen>>20)
+	if _, err := xfer.Send(src, dst, []*objects.Commit{com}, map[string]struct{}{string(ts): {}}, nil, c.MaxSize, [][]byte{sums[0]}); err != nil {
+		return o, fmt.Errorf("%s, valid at the source, does not arrive: %v", what, err)
+	}
+	for _, k := range src.Keys() {
+		want, _ := src.Raw(k)
+		got, ok := dst.Raw(k)
+		if !ok {
+			return o, fmt.Errorf("%s: object %s is missing at the destination", what, keyName(k))
+		}
+		if !bytes.Equal(got, want) {
+			return o, fmt.Errorf("%s: object %s differs at the destination", what, keyName(k))
+		}
+	}
+	if _, err := tblcheck.Validate(dst, ts); err != nil {
+		return o, fmt.Errorf("%s: table at the destination is not sound: %v", what, err)
+	}
+	o.NonTrivial = c.Rows*c.Cols*c.CellLen > 1<<20
+	if c.Rows*c.Cols*c.CellLen > 16<<20 {
+		o.Class("block>16MB")
+	}
+	return o, nil
+}
+
+func keyName(k string) string {
+	i := strings.IndexByte(k, '/')
+	if i < 0 {
+		return fmt.Sprintf("%x", k)
+	}
+	return fmt.Sprintf("%s%x", k[:i+1], k[i+1:])
 }
